@@ -1,10 +1,11 @@
 (* Props/C05.v -- every reachable stabilizer state is a valid density matrix (tableau invariant).  Property theorems only.
    tableau_ok n t (Model/Spec.v): 2n rows of n sites, all Hermitian (phase 0 or 2), row j anticommuting with its partner j+-n and with no other row, 0 <= r <= n.
    The alphabet sop / step function sstep (Proofs/ReachFacts.v) lists the public state-changing operations; sop_ok is their documented domain.
-   PARTIAL with respect to "denotes a positive operator of trace one and rank 2^r": proved are the generator-level facts from which that follows (N-r mutually
-   commuting, independent, Hermitian generators; -I is never a stabilizer: see C06 group_sign_unique/group_independent); positivity of a product of commuting projectors
-   and Tr = 2^r-normalisation are the cited textbook step (checked densely for N<=3 after every step of every walk by the correspondence check). *)
-From PC Require Import Model.Base Model.Pauli Model.CMap Model.Tableau Model.Circuit Model.Spec Proofs.CircuitFacts Proofs.CompileFacts Proofs.MaskFacts Proofs.TableauInv Proofs.ReachFacts Model.Poly Model.PolySem Model.Sample Proofs.TraceFacts.
+   "Denotes a positive operator of trace one and rank 2^r" is proved for the density polynomial rho = 2^-N sum_{g in group} g in the ket semantics (exact Gaussian
+   rationals): Hermitian matrix, trace 1, rho rho = 2^-r rho entry by entry, and <v|rho|v> = 2^r |rho v|^2 >= 0 for every vector v (Proofs/TraceFacts.v, PositiveFacts.v).
+   (rank 2^r then is Tr(2^r rho) for the projector 2^r rho; dense eigenvalues are also checked for N<=3 after every step of every walk by the correspondence check.) *)
+From Coq Require Import QArith Qcanon.
+From PC Require Import Model.Base Model.Pauli Model.CMap Model.Tableau Model.Circuit Model.Spec Proofs.CircuitFacts Proofs.CompileFacts Proofs.MaskFacts Proofs.TableauInv Proofs.ReachFacts Model.Poly Model.PolySem Model.Sample Proofs.TraceFacts Proofs.PositiveFacts.
 Open Scope Z_scope.
 
 (* invariant by induction over histories: every state reachable by any finite sequence of public operations, from any valid start, with any coin schedule *)
@@ -74,6 +75,19 @@ Print Assumptions C05_rho_squared.
 Theorem C05_rho_terms_hermitian : forall n t a, tableau_ok n t -> In a (density_terms t) -> hermP a /\ length (fst a) = n.
 Proof. exact rho_terms_hermitian. Qed.
 Print Assumptions C05_rho_terms_hermitian.
+(* POSITIVITY, for every valid tableau and EVERY vector v (a function from kets to exact Gaussian rationals, summed over all 2^N kets):
+   <v|rho|v> is a non-negative real, namely 2^r times the squared norm of rho v; and the matrix of rho is Hermitian *)
+Theorem C05_positive_semidefinite : forall n t v, tableau_ok n t -> exists x : Qc, (0 <= x)%Qc /\ quad n (density_poly t) v = (x, 0%Qc).
+Proof. exact rho_positive. Qed.
+Print Assumptions C05_positive_semidefinite.
+Theorem C05_quadratic_form_is_a_squared_norm : forall n t v, tableau_ok n t ->
+  cmul (half_pow (rk t)) (quad n (density_poly t) v) = csum (map (fun m => cnorm2c (mvec n (density_poly t) v m)) (all_kets n)).
+Proof. exact rho_quadratic_form. Qed.
+Print Assumptions C05_quadratic_form_is_a_squared_norm.
+Theorem C05_hermitian_matrix : forall n t k k', tableau_ok n t -> length k = n -> length k' = n ->
+  amp (density_poly t) k' k = cconj (amp (density_poly t) k k').
+Proof. exact rho_hermitian_matrix. Qed.
+Print Assumptions C05_hermitian_matrix.
 (* non-vacuity: a signed, entangled, rank-1 three-qubit tableau satisfies the invariant (decidable form) *)
 Example C05_example : tableau_ok_b
   {| rows := [([(true,false);(true,false);(false,false)],2); ([(false,true);(false,true);(false,false)],0); ([(false,false);(false,false);(false,true)],2);
